@@ -68,14 +68,21 @@ impl Classes {
     pub fn is_empty(&self) -> bool {
         self.map.is_empty()
     }
+    #[allow(dead_code)]
     pub fn total(&self) -> u64 {
         self.map.values().map(|h| h.count).sum()
     }
     /// Re-execute each class's first witness through `replay` (must return the classes hit by that
     /// single case); a witness that does not reproduce is a machinery error. Then emit one
-    /// violation per class into `st`.
-    pub fn emit(&self, st: &mut Stats, replay: &dyn Fn(&Value) -> Classes) {
-        for (class, h) in &self.map {
+    /// violation per class into `st`. Classes whose key is NOT listed in known_findings.json are
+    /// emitted first, so that the 8-key cap of `Stats` can never hide a new defect behind known ones.
+    /// Returns a JSON list of ALL classes (uncapped) for the evidence file.
+    pub fn emit(&self, st: &mut Stats, property: &str, replay: &dyn Fn(&Value) -> Classes) -> Value {
+        let known = known_keys(property);
+        let mut order: Vec<(&String, &Hit)> = self.map.iter().collect();
+        order.sort_by_key(|(class, h)| (known.contains(&format!("{class}/{}", h.witness)), (*class).clone()));
+        let mut all = vec![];
+        for (class, h) in order {
             let again = replay(&h.replay);
             if !again.map.contains_key(class) {
                 println!(
@@ -86,10 +93,33 @@ impl Classes {
                 std::process::exit(2);
             }
             let key = format!("{class}/{}", h.witness);
+            println!("[vf_coll] violation class {key}: {} case(s)", h.count);
+            all.push(vf_explore::json!({"key": key, "cases": h.count, "what": h.what}));
             st.violation(key, format!("{} [{} case(s) of this class]", h.what, h.count), h.replay.clone());
             st.violations_total += h.count - 1;
         }
+        Value::Array(all)
     }
+}
+
+/// Keys listed for `property` in $VERIF_DIR/known_findings.json (same format vf_explore reads).
+pub fn known_keys(property: &str) -> Vec<String> {
+    let p = vf_explore::verif_dir().join("known_findings.json");
+    let Ok(txt) = std::fs::read_to_string(&p) else { return vec![] };
+    let Ok(v) = vf_explore::serde_json::from_str::<Value>(&txt) else { return vec![] };
+    let mut out = vec![];
+    if let Some(arr) = v.get("findings").and_then(|a| a.as_array()) {
+        for f in arr {
+            if f.get("property").and_then(|x| x.as_str()) == Some(property) {
+                for k in f.get("keys").and_then(|x| x.as_array()).into_iter().flatten() {
+                    if let Some(k) = k.as_str() {
+                        out.push(k.to_string());
+                    }
+                }
+            }
+        }
+    }
+    out
 }
 
 /// A `Stats` + `Classes` pair that worker shards return.
